@@ -57,6 +57,7 @@ pub fn world_knobs(rng: &mut Rng, plan: &mut Plan, faulty: bool) {
         f.c2s_dup = on(30, rng);
         f.c2s_delay = on(50, rng);
         f.c2s_phantom = on(20, rng);
+        f.c2s_truncate = on(15, rng);
         f.s2c_drop = on(20, rng);
         f.s2c_dup = on(20, rng);
         f.s2c_delay = on(50, rng);
